@@ -185,6 +185,8 @@ func checkC09(w *World, r *Report) {
 	r.Rule("R09.3", "label / name limits", 4)
 	r.Rule("R09.5", "the name unescaper consumes every escape form whenever its bytes are there (no consuming step guarded more strictly than its width)", 1)
 	r.Rule("R09.4", "command table and cache-busting alphabet", 2)
+	r.Rule("R09.8", "the Base85 upstream codec leaves no byte in the question name that the DNS library reads as an escape or a separator (backslash, dot): the substitution table covers them", 1)
+	ruleBase85Substitution(w, r, "R09.8")
 	r.Rule("R09.7", "the server's decoder of an upstream codec never cuts a request payload short: ascii85.Decode has worst-case room or its consumed count is checked", 1)
 	ruleAscii85Room(w, r, "R09.7")
 	r.Rule("R09.6", "the regular expressions that decide the width of an unescaping step are anchored at the start", 1)
@@ -719,6 +721,8 @@ func checkC10(w *World, r *Report) {
 	c10NoPartialAnswerOnError(w, r)
 	r.Rule("R10.14", "no downstream codec cuts a response short: ascii85.Decode has worst-case room or its consumed count is checked", 1)
 	ruleAscii85Room(w, r, "R10.14")
+	r.Rule("R10.16", "a response decoder that reports success has stored something into the answer (a refusal never arrives as a blank, granted answer)", 5)
+	c10DecodedResponseIsNeverBlank(w, r)
 	r.Rule("R10.15", "a record buffer of constant size is written completely on every path: records are never padded (the client has no length field to tell padding from payload)", 3)
 	c10RecordBuffersAreNeverPadded(w, r)
 	r.Rule("R10.13", "the reassembly sorts the answer records by keys read from the records themselves (a comparator over a precomputed key slice does not follow the swaps)", 1)
@@ -1309,7 +1313,7 @@ func subSliceReaches(w *World, fn *ssa.Function, p *ssa.Parameter, depth int) st
 	if idx < 0 {
 		return ""
 	}
-	for caller := range allModuleFuncs(w, w.SSA()) {
+	for _, caller := range sortedFuncs(allModuleFuncs(w, w.SSA())) {
 		for _, c := range callsIn(caller) {
 			if c.Common().StaticCallee() != fn || idx >= len(c.Common().Args) {
 				continue
